@@ -40,6 +40,10 @@ CLAIMED = {
          "Lean theorems over reader state machine and FIFO pipeline + regenerated channel facts + transport correspondence", "5 C04"),
  "C13": ("proof", "Lean: generic theorem that a passing reachable-state check implies every reachable state without a successor has all goroutines exited; kernel evaluation (decide +kernel) of the check on the hand-written blocking structures of the accepting side (all causes) and initiating side; the structures are tied to /repo by the inventory of blocking operations regenerated on every run (C13_generated). Known finding: on the initiating side the handler context is not cancelled when the connection ends (forwarder can stay in ServeIncoming, later sends block). Fault-injection harness as failing-schedule search.",
          "Lean reachability/closure check with soundness theorem + regenerated blocking inventory + fault-injection search", "5 C13"),
+ "C08": ("proof", "Lean: for every sequence of outbound refreshes and polls of the heartbeat timer (timeout T, period T/10) the silence since the last outbound message stays below T + T/10 (C08_upper) and the timer emits only at a poll at least T after it (C08_lower); frequency 10 and the timer's construction expression are regenerated from the source. Wall-clock behaviour (ticker, scheduler) is measured against the model with stated slack, not proved.",
+         "Lean invariant over timer model + source-regenerated constants + real-time validation", "5 C08"),
+ "C09": ("proof", "Lean: timeout N + max(N/20,1) (formula text tied to source); no expiry while inbound gaps <= N (C09_live); expiry within T'+P of silence; session model: first expiry => one TestRequest and probing state, expiry while probing => disconnect event + context cancelled + handler stopped, any inbound message while probing cancels it. Real-time scenarios at N = 1 s validate the timing.",
+         "Lean theorems over timer + session model + source-regenerated formula + real-time scenarios", "5 C09"),
 }
 NOT_YET = {}
 
